@@ -217,6 +217,8 @@ def abstract_obs(b, a, o):
     k = a["k"]
     if o is None:
         return {"bad": "no observation"}
+    if "panic" in o:
+        return {"bad": "panic in the code under test: %s" % o["panic"]}
     if "err" in o:
         return {"bad": "push failed: %s" % o["err"]}
     e = {}
@@ -283,6 +285,9 @@ def to_trace(case, result):
             ev.append({"k": "bad", "what": "no observation for call %d" % i})
             break
         o, k = obs[i], a["k"]
+        if "panic" in o:
+            ev.append({"k": "bad", "what": "panic at call %d: %s" % (i, str(o["panic"])[:300])})
+            break
         if "err" in o:
             ev.append({"k": "bad", "what": o["err"][:200]})
             break
@@ -338,9 +343,10 @@ def to_trace(case, result):
     return ev
 
 
-def p_batch(traces, wd, tag, max_reject=25):
+def p_batch(traces, wd, tag, max_reject=12):
     """Validate many recorded executions with one TLC run (reset events separate them).
-    traces: [(key, events)].  Returns ({key: rejected event}, total events validated, TLC runs)."""
+    traces: [(key, events)].  Returns ({key: rejected event}, events validated, TLC runs, keys left unjudged
+    because max_reject executions were already rejected)."""
     rejected, total, runs = {}, 0, 0
     rest = list(traces)
     while rest and len(rejected) < max_reject:
@@ -360,7 +366,10 @@ def p_batch(traces, wd, tag, max_reject=25):
         idx = max(i for i, (s, _) in enumerate(starts) if s <= m)
         rejected[starts[idx][1]] = {"at": m - starts[idx][0], "event": events[m] if m < len(events) else None}
         rest = rest[idx + 1:]
-    return rejected, total, runs
+    else:
+        # left the loop without an all-accepting run: whatever is still in `rest` was never judged
+        return rejected, total, runs, {key for key, _ in rest}
+    return rejected, total, runs, set()
 
 
 # ----------------------------------------------------------------------------- graph helpers
@@ -421,21 +430,27 @@ def plan(tier):
             graphs=[("rt", consts("rt", 2, a2=(1,), tdk=4)), ("ag", consts("ag", 2, remotes=("r1",), tdk=0))],
             b3=[consts("rt", 2, a2=(1,), ghost=True, lag=2, tdk=0),
                 consts("ag", 2, ghost=True, lag=2, tdk=0)],
-            sims=[(consts("comp", 2, remotes=("r1",), ghost=True, watched=("L", "r1")), 120, 40)],
+            sims=[(consts("comp", 2, remotes=("r1",), ghost=True, watched=("L", "r1")), 100, 40),
+                  (consts("rt", 4, a2=(1, 2), a3=(1,), nv=3, ghost=True), 40, 50),
+                  (consts("ag", 3, remotes=("r1", "r2"), nv=3, ghost=True, watched=("L", "r1", "r2")), 40, 50)],
             walks={"rt": (250, 40), "ag": (250, 40)}, extend=3, cover_limit={"rt": None, "ag": 2500},
             p_sample=12, hash_every=8)
     return dict(
-        graphs=[("rt", consts("rt", 3, a2=(1, 2), a3=(1,), tdk=6)), ("ag", consts("ag", 2, remotes=("r1", "r2"), tdk=0)),
-                ("ag", consts("ag", 3, remotes=("r1",), tdk=0))],
+        graphs=[("rt", consts("rt", 2, a2=(1, 2), a3=(1,), tdk=6)), ("rt", consts("rt", 3, a2=(1,), tdk=0)),
+                ("ag", consts("ag", 2, remotes=("r1",), tdk=0)), ("comp", consts("comp", 1, tdk=0))],
         b3=[consts("rt", 2, a2=(1,), ghost=True, lag=3, tdk=0),
             consts("rt", 3, a2=(1,), ghost=True, lag=2, tdk=0),
             consts("ag", 2, ghost=True, lag=3, tdk=0),
             consts("ag", 2, remotes=("r1",), ghost=True, lag=2, watched=("r1",), tdk=0),
-            consts("comp", 2, ghost=True, lag=2, tdk=0)],
-        sims=[(consts("comp", 3, remotes=("r1", "r2"), ghost=True, watched=("L", "r1", "r2")), 1500, 60),
-              (consts("comp", 2, remotes=("r1",), ghost=True, watched=("L", "r1")), 1500, 80),
-              (consts("ag", 3, remotes=("r1", "r2"), ghost=True, watched=("L", "r1", "r2")), 1000, 80)],
-        walks={"rt": (3000, 60), "ag": (3000, 60)}, extend=6, cover_limit={"rt": None, "ag": None},
+            consts("ag", 2, remotes=("r1",), ghost=True, lag=1, watched=("L",), tdk=0),
+            consts("comp", 1, ghost=True, lag=2, tdk=0),
+            consts("comp", 2, ghost=True, lag=1, tdk=0)],
+        sims=[(consts("comp", 3, remotes=("r1", "r2"), nv=3, ghost=True, watched=("L", "r1", "r2")), 150, 60),
+              (consts("comp", 2, remotes=("r1",), ghost=True, watched=("L", "r1")), 200, 80),
+              (consts("rt", 4, a2=(1, 2, 3), a3=(1, 2), nv=3, ghost=True), 150, 80),
+              (consts("ag", 3, remotes=("r1", "r2"), nv=3, ghost=True, watched=("L", "r1", "r2")), 150, 80)],
+        walks={"rt": (3000, 60), "ag": (3000, 60), "comp": (2000, 60)}, extend=6,
+        cover_limit={"rt": None, "ag": None, "comp": None},
         p_sample=4, hash_every=5)
 
 
@@ -557,12 +572,13 @@ def judge(out, what, cases, results, finals, wd, tag, p_sample, stats, always_p=
         else:
             div[i] = d
             to_p.append((i, to_trace(c, r)))
-    rejected, nev, runs = p_batch(to_p, wd, tag)
+    rejected, nev, runs, unjudged = p_batch(to_p, wd, tag)
+    stats["unjudged"] += len(unjudged)
     stats["p_events"] += nev
     stats["p_runs"] += runs
     stats["p_traces"] += len(to_p)
     for i, d in div.items():
-        if i in rejected:
+        if i in rejected or i in unjudged:
             continue
         if cases[i]["cfg"].get("backing") == "hash":
             stats["order_free"] += 1      # HashMap iteration order: M does not predict it, P has accepted it
@@ -578,12 +594,24 @@ def judge(out, what, cases, results, finals, wd, tag, p_sample, stats, always_p=
             what, cases[i]["id"], rej["at"], json.dumps(rej["event"]),
             ("first difference from M at call %s: expected %s, real code gave %s" % (d[0], json.dumps(d[1]), json.dumps(d[2])[:400]))
             if d else "(the execution conforms to M: M and P disagree)")
-        out.violation(msg, {"component": "mapqueue", "what": what, "case": public_case(cases[i]), "observed": results[i]})
+        report(out, msg, {"component": "mapqueue", "what": what, "case": public_case(cases[i]), "observed": results[i]})
     return stats
 
 
+def report(out, msg, replay_obj):
+    """VIOLATION, unless the failure is a listed open finding: an entry of known_findings/*.json for this
+    property whose signature is {"component": "mapqueue" | "takedrop", "match": <text occurring in the message>}.
+    (Keyed on the failure actually being observed; nothing is listed at the time of writing.)"""
+    for f in core.open_findings(out.prop):
+        sig = f.get("signature")
+        if isinstance(sig, dict) and sig.get("component") == replay_obj.get("component") and sig.get("match") and sig["match"] in msg:
+            out.known_finding(f["what"])
+            return
+    out.violation(msg, replay_obj)
+
+
 def new_stats():
-    return dict(replayed_calls=0, conform=0, drift=0, rejected=0, p_events=0, p_runs=0, p_traces=0, order_free=0)
+    return dict(replayed_calls=0, conform=0, drift=0, rejected=0, p_events=0, p_runs=0, p_traces=0, order_free=0, unjudged=0)
 
 
 def run_k(tier, out, wd=None):
@@ -675,6 +703,7 @@ def run_k(tier, out, wd=None):
             j = len(cases) // 2
             out.sample({"component": "MapQueue[%s]" % kname(k), "binding": cases[j]["_b"].desc,
                         "calls_with_expected_results": cases[j]["acts"][:10],
+                        "concrete_calls": wire(cases[j])["acts"][:10],
                         "real_results": results[j].get("obs", [])[:10]})
 
     # ---- B1 / B3 on simulated behaviours
@@ -702,7 +731,8 @@ def run_k(tier, out, wd=None):
         if cases and mode not in sample_done:
             sample_done.add(mode)
             out.sample({"component": "MapQueue-sim[%s]" % kname(k), "binding": cases[0]["_b"].desc,
-                        "calls_with_expected_results": cases[0]["acts"][:10], "real_results": results[0].get("obs", [])[:10]})
+                        "calls_with_expected_results": cases[0]["acts"][:10],
+                        "concrete_calls": wire(cases[0])["acts"][:10], "real_results": results[0].get("obs", [])[:10]})
 
     # ---- take / drop
     td = run_td(out, td_cases, wd, rng, prints)
@@ -713,6 +743,7 @@ def run_k(tier, out, wd=None):
             traces_validated_against_impl=tot["traces_validated_against_impl"],
             k_replayed_calls=stats["replayed_calls"], k_conform=stats["conform"], k_model_drift=stats["drift"],
             k_order_free_accepted_by_P=stats["order_free"], k_rejected=stats["rejected"],
+            k_unjudged_after_rejections=stats["unjudged"],
             k_p_traces_validated=stats["p_traces"], k_p_trace_events_validated=stats["p_events"],
             k_takedrop_cases=td["cases"], k_takedrop_evaluations=td["evaluations"])
     out.add(k_b3=b3_report,
@@ -768,8 +799,8 @@ def run_td(out, td_cases, wd, rng, prints):
     sampled = False
     for case, ms, r in zip(cases, meta, results):
         if r.get("panic") is not None:
-            out.violation("drop_or_take panicked (%s): %s" % (case["id"], r["panic"]),
-                          {"component": "takedrop", "case": case, "observed": r})
+            report(out, "drop_or_take panicked (%s): %s" % (case["id"], r["panic"]),
+                   {"component": "takedrop", "case": case, "rank_of_key": {}, "expected_removed_ranks": [], "observed": r})
             continue
         for a, (c, back), o in zip(case["acts"], ms, r["obs"]):
             evaluations += 1
@@ -782,11 +813,12 @@ def run_td(out, td_cases, wd, rng, prints):
                 continue
             bad += 1
             if bad <= 10:
-                out.violation("%s(%d) on a map with keys %s (%s) removed %s; by the documented key order it removes the keys of rank %s among %s" % (
+                byrank = {rk: kj for kj, rk in back.items()}
+                report(out, "%s(%d) on a map with keys %s (%s) removed %s; by the documented key order (%s) it removes %s" % (
                     c["kind"], c["n"], json.dumps(a["keys"]), case["id"], json.dumps(o["removed"]),
-                    c["removed"], c["present"]),
+                    " < ".join(byrank[x] for x in c["present"]), "[" + ", ".join(byrank[x] for x in c["removed"]) + "]"),
                     {"component": "takedrop", "case": {"id": case["id"], "cfg": case["cfg"], "acts": [a]},
-                     "expected_removed_ranks": c["removed"], "present_ranks": c["present"], "observed": o})
+                     "rank_of_key": back, "expected_removed_ranks": c["removed"], "present_ranks": c["present"], "observed": o})
         if not sampled and case["acts"]:
             sampled = True
             j = len(case["acts"]) // 2
@@ -807,13 +839,17 @@ def replay(path, out=None):
     core.build_harness(MEMBER, COMPONENT)
     if obj.get("component") == "takedrop":
         case = obj["case"]
-        r = run_harness_cases([case], wd, "replay")[0]
-        print("call:", json.dumps(case["acts"][0]))
-        print("real drop_or_take removed:", json.dumps(r.get("obs", [{}])[0].get("removed")), "panic:", r.get("panic"))
-        print("expected (ranks of present keys %s): %s" % (obj.get("present_ranks"), obj.get("expected_removed_ranks")))
-        same = r.get("panic") is None and r["obs"][0]["removed"] == obj["observed"]["removed"]
-        print("reproduces the recorded result:", same)
-        if same:
+        back, want = obj["rank_of_key"], sorted(obj["expected_removed_ranks"])
+        print("call:", json.dumps(case["acts"][0]), "expected removed ranks:", want, "rank of key:", back)
+        many = dict(case, acts=case["acts"] * 20)       # HashMap iteration order differs per map instance
+        r = run_harness_cases([many], wd, "replay")[0]
+        if r.get("panic") is not None:
+            print("panic:", r["panic"])
+            print("VIOLATION property=%s replay=%s" % (prop, path))
+            return 1
+        wrong = [o["removed"] for o in r["obs"] if sorted(back.get(core.canon(x), -1) for x in o["removed"]) != want]
+        print("real drop_or_take, 20 runs: %d wrong; e.g. %s" % (len(wrong), json.dumps((wrong or [r["obs"][0]["removed"]])[0])))
+        if wrong:
             print("VIOLATION property=%s replay=%s" % (prop, path))
             return 1
         return 0
@@ -848,7 +884,7 @@ def replay(path, out=None):
     d = diverges(case, r)
     print("first difference from M:", json.dumps(d))
     ev = to_trace(case, r)
-    rej, n, _ = p_batch([(0, ev)], wd, "replay_p")
+    rej, n, _, _ = p_batch([(0, ev)], wd, "replay_p")
     if rej:
         print("P (Trace_MapQueue) rejects the execution at event %s: %s" % (rej[0]["at"], json.dumps(rej[0]["event"])))
         print("trace:", json.dumps(ev[max(0, rej[0]["at"] - 12): rej[0]["at"] + 1]))
